@@ -30,12 +30,16 @@ impl Drop for AutoDespawnSignalInner
 /// Drains [`AutoDespawner`] and recursively despawns entities that were auto-despawned.
 pub fn garbage_collect_entities(world: &mut World)
 {
+    #[cfg(feature = "verif")]
+    crate::verif::emit(crate::verif::VerifEvent::GcBegin);
     while let Some(entity) = world.resource::<AutoDespawner>().try_recv()
     {
         #[cfg(feature = "verif")]
         crate::verif::emit(crate::verif::VerifEvent::Gc{ entity, existed: world.get_entity(entity).is_ok() });
         world.get_entity_mut(entity).ok().map(|e| e.despawn_recursive());
     }
+    #[cfg(feature = "verif")]
+    crate::verif::emit(crate::verif::VerifEvent::GcEnd);
 }
 
 //-------------------------------------------------------------------------------------------------------------------
